@@ -433,7 +433,7 @@ func TestVF_C08_Mutator(t *testing.T) {
 		// large): the random operator choice above seldom hits one particular map entry of one
 		// particular proof of the list
 		nl := vfh.JSONLeafCount(seed.doc)
-		step := nl/rec.N(6, 120) + 1
+		step := nl/rec.N(6, 20) + 1
 		off := 0
 		if step > 1 {
 			off = rapid.IntRange(0, step-1).Draw(rt, "leafOffset")
